@@ -1,5 +1,5 @@
 SPECIFICATION Spec
-CONSTANTS MaxN = 4 MaxIter = 2 StrictA = TRUE
+CONSTANTS MaxN = 4 MaxIter = 2 StrictA = TRUE GenMod = 1
   AsIs_UnconditionalUnshuffle = FALSE Mut_NoReshuffle = FALSE Mut_FeedUnlabeled = TRUE Mut_InverseMixup = FALSE
 CONSTANT Thresholds <- ThrSmall
 CONSTANT ShuffleVals <- BothB
